@@ -350,18 +350,23 @@ namespace AIToolbox::POMDP {
                 if ( !isProbability(O, of[s1][a]) )
                     throw std::invalid_argument("Input observation matrix does not contain valid probabilities.");
 
+        // Entries indistinguishable from zero are not stored, so we build the
+        // new function on the side and verify that what we actually keep is
+        // still a probability before touching the model.
+        ObservationMatrix newObservations(this->getA(), SparseMatrix2D(this->getS(), O));
         for ( size_t a = 0; a < this->getA(); ++a ) {
-            observations_[a].setZero();
             for ( size_t s1 = 0; s1 < this->getS(); ++s1 )
             for ( size_t o = 0; o < O; ++o ) {
                 const double p = of[s1][a][o];
                 if ( checkDifferentSmall( p, 0.0 ) )
-                    observations_[a].insert(s1, o) = p;
+                    newObservations[a].insert(s1, o) = p;
             }
+            newObservations[a].makeCompressed();
         }
+        if (!isProbability(newObservations))
+            throw std::invalid_argument("Input observation matrix does not contain valid probabilities once near-zero entries are dropped.");
 
-        for ( size_t a = 0; a < this->getA(); ++a )
-            observations_[a].makeCompressed();
+        observations_ = std::move(newObservations);
     }
 
     template <MDP::IsModel M>
